@@ -177,6 +177,23 @@ func (s *Sim) pop() *event {
 	return e
 }
 
+// onlyPeriodic reports whether every live pending event is a ticker firing.
+//
+//go:norace
+func (s *Sim) onlyPeriodic() bool {
+	any := false
+	for _, e := range s.evq {
+		if e.dead {
+			continue
+		}
+		if !e.periodic {
+			return false
+		}
+		any = true
+	}
+	return any
+}
+
 // nextEvent returns the earliest live event (dropping cancelled ones).
 //
 //go:norace
